@@ -207,7 +207,7 @@ def oracle_C18(run):
         # RFC category, where the cause is a single classified frame
         rfs = raw_frames(data)
         if rfs and len(rfs) == 1 and obs['snap_before']['state'] != 'CLOSED' and \
-                ol.split(',')[-1] == '0' and before_buf_empty(run, i, c):
+                buflen(ol) == '0' and before_buf_empty(run, i, c):
             want = classify_single_frame(rfs[0], obs['snap_before'], client[c])
             if want is not None and want != r[2]:
                 out.append(fail('rfc-error-code', i, got=r[2], want=want, frame_type=rfs[0]['type']))
@@ -227,8 +227,16 @@ def before_buf_empty(run, i, c):
     for j in range(i - 1, -1, -1):
         op, ol, ml, obs = run.log[j]
         if obs is not None and conn_of(op) == c:
-            return ol.split(',')[-1] == '0'
+            return buflen(ol) == '0'
     return True
+
+
+def buflen(ol):
+    """length of the inbound frame buffer as printed in the st= peek of an observation line"""
+    for part in ol.split(' | '):
+        if part.startswith('st='):
+            return part.split(',')[10]
+    return '?'
 
 
 # ---------------------------------------------------------------------------
@@ -402,7 +410,7 @@ def oracle_C03(run):
         # streams that came into existence get the current peer INITIAL_WINDOW_SIZE
         if is_recv(op):
             data = obs.get('xfer_data') if o == 'xfer' else op['data']
-            if r[0] != 'ok' or not before_buf_empty(run, i, c) or ol.split(',')[-1] != '0':
+            if r[0] != 'ok' or not before_buf_empty(run, i, c) or buflen(ol) != '0':
                 L.tainted = True          # partial processing cannot be reconstructed from the outside
                 continue
             rfs = raw_frames(data if (c in getattr(run, '_preface_done', set()) or run.world.conns[c].client) else strip_preface(run, c, data))
